@@ -247,7 +247,8 @@ def check(P: Project, R: Report) -> None:
         R.ob("R2", "request params are the params parameter", ok_p, where, f"params={pterm}")
         wait_b = dict(p.split("=", 1) for p in evs[wi][len("wait:"):].split("|") if "=" in p)
         awaited = wait_b.get(id_param) if id_param else None
-        R.ob("R2", "the awaited id is the id the request was built with", awaited is not None and awaited == parts.get("id"), where,
+        same_id = awaited is not None and (awaited == parts.get("id") or awaited == f"{wterm}.id")  # (`req_id = message.id`: read back from the request that is written)
+        R.ob("R2", "the awaited id is the id the request was built with", same_id, where,
              f"request id `{parts.get('id')}` vs awaited `{awaited}` (wait parameter {id_param})", sample=f"R2 send_message: write(create_request(id={parts.get('id')})) → wait({id_param}={awaited})")
         R.ob("R2", "the wait reads the caller's read stream", W.read_p in wait_b.values(), where, f"wait bound {wait_b}")
     for c in walk_local(W.send.node):
